@@ -1779,6 +1779,31 @@ def _empties(atom: str, dom: str) -> bool:
     return t in (dom, dom + "|length", dom + "|count", dom + "|length > 0", dom + "|length != 0", dom + "|count > 0")
 
 
+def _const_truth(t: nodes.Node) -> "bool | None":
+    """the value of a condition that consists of constants only (what a test on a macro parameter becomes where the macro is expanded
+    with a constant argument); None when it depends on anything else"""
+    if isinstance(t, nodes.Const):
+        return bool(t.value)
+    if isinstance(t, nodes.Not):
+        v = _const_truth(t.node)
+        return None if v is None else not v
+    if isinstance(t, (nodes.And, nodes.Or)):
+        l, r = _const_truth(t.left), _const_truth(t.right)
+        absorbing = isinstance(t, nodes.Or)
+        if l is absorbing or r is absorbing:
+            return absorbing
+        return (not absorbing) if l is (not absorbing) and r is (not absorbing) else None
+    if isinstance(t, nodes.Compare) and len(t.ops) == 1 and isinstance(t.expr, nodes.Const) and isinstance(t.ops[0].expr, nodes.Const):
+        l, r, op = t.expr.value, t.ops[0].expr.value, t.ops[0].op
+        if op in ("eq", "ne"):
+            return (l == r) == (op == "eq")
+        if op in ("in", "notin") and isinstance(r, str) and isinstance(l, str):
+            return (l in r) == (op == "in")
+    if isinstance(t, nodes.Test) and isinstance(t.node, nodes.Const) and t.name == "none" and not t.args:
+        return t.node.value is None
+    return None
+
+
 class _TplRun:
     def __init__(self, jx: Any, root: Any) -> None:
         self.jx, self.root = jx, root
@@ -1796,6 +1821,9 @@ class _TplRun:
         self.chain: list[Any] = []  # the templates whose `include` is being expanded
         self._lstack: list[tuple[int, nodes.Node]] = []  # the loops being expanded: (number of the run of the loop, its iterable)
         self._ostack: list[tuple[str, str]] = []  # the macros / partials being expanded: (template, macro)
+        # what `caller(...)` stands for in the macro being expanded: the `{% call %}` block that expands it (block, its template, the
+        # names bound where it stands, the expansions it stands in) - None in a macro that is expanded by a plain call
+        self._cstack: list[Any] = []
         self._lcount = 0
         self.reset({})
         self.relevant: set[str] = set()
@@ -1893,33 +1921,52 @@ class _TplRun:
                     if isinstance(base, nodes.Name) and base.name in self.blocks[ti.name] and depth < 4:
                         yield from self.frags(self.blocks[ti.name][base.name].body, ti, binds, guards, gnodes, loops, depth + 1, targets)
                         continue
+                    if isinstance(c2, nodes.Const) and isinstance(c2.value, str) and not isinstance(c, nodes.Const) and c2.value.strip():
+                        # a parameter that the expansion at hand binds to a constant text: written as that text
+                        yield frag("data", c2.value, c.lineno, guards, gnodes, loops, nodes.TemplateData(c2.value, lineno=c.lineno))
+                        continue
                     whole = False
                     for call in _calls_inner_first(c2):
+                        if isinstance(call.node, nodes.Name) and call.node.name == "caller" and self._cstack and self._cstack[-1] is not None \
+                                and depth < 8:
+                            # the body of the `{% call %}` block, where the macro asks for it: with the block's parameters bound to what
+                            # the macro passes, everything else read where the block stands
+                            blk, bti, bbinds, bostack = self._cstack[-1]
+                            bparams = [a.name for a in blk.args]
+                            b3: dict[str, nodes.Node] = dict(bbinds)
+                            b3.update(zip(bparams[len(bparams) - len(blk.defaults):], blk.defaults))
+                            b3.update(zip(bparams, call.args))
+                            b3.update({k.key: k.value for k in call.kwargs if k.key in bparams})
+                            saved_o, saved_c = self._ostack, self._cstack
+                            self._ostack, self._cstack = list(bostack), self._cstack[:-1]
+                            try:
+                                yield from self.frags(blk.body, bti, b3, guards, gnodes, loops, depth + 1, targets)
+                            finally:
+                                self._ostack, self._cstack = saved_o, saved_c
+                            whole = whole or call is base
+                            continue
                         hit = self.macro_of(call, ti)
                         if hit is not None and depth < 4:
-                            t2, m = hit
-                            params = [a.name for a in m.args]
-                            b2: dict[str, nodes.Node] = dict(zip(params[len(params) - len(m.defaults):], m.defaults))
-                            b2.update(zip(params, call.args))
-                            b2.update({k.key: k.value for k in call.kwargs})
-                            self._ostack.append((t2.name, m.name))
-                            try:
-                                yield from self.frags(m.body, t2, b2, guards, gnodes, loops, depth + 1, targets)
-                            finally:
-                                self._ostack.pop()
+                            yield from self._expand(hit, call, None, guards, gnodes, loops, depth, targets)
                             whole = whole or call is base
                     if not whole:
                         yield frag("expr", expr_text(c2), c.lineno, guards, gnodes, loops, c2)
             elif isinstance(n, nodes.If):
-                t = sub(n.test)
-                yield from self.frags(n.body, ti, binds, guards + ((expr_text(t), True),), gnodes + (t,), loops, depth, targets)
-                neg, gn = guards + ((expr_text(t), False),), gnodes + (t,)
-                for el in n.elif_:
-                    t2_ = sub(el.test)
-                    yield from self.frags(el.body, ti, binds, neg + ((expr_text(t2_), True),), gn + (t2_,), loops, depth, targets)
-                    neg, gn = neg + ((expr_text(t2_), False),), gn + (t2_,)
-                if n.else_:
-                    yield from self.frags(n.else_, ti, binds, neg, gn, loops, depth, targets)
+                # (a test that the expansion at hand decides - a parameter compared with the constant it is bound to - selects its arm)
+                neg, gn = guards, gnodes
+                for test, arm in [(n.test, n.body)] + [(el.test, el.body) for el in n.elif_]:
+                    t = sub(test)
+                    known = _const_truth(t) if binds else None
+                    if known is False:
+                        continue
+                    if known is True:
+                        yield from self.frags(arm, ti, binds, neg, gn, loops, depth, targets)
+                        break
+                    yield from self.frags(arm, ti, binds, neg + ((expr_text(t), True),), gn + (t,), loops, depth, targets)
+                    neg, gn = neg + ((expr_text(t), False),), gn + (t,)
+                else:
+                    if n.else_:
+                        yield from self.frags(n.else_, ti, binds, neg, gn, loops, depth, targets)
             elif isinstance(n, nodes.For):
                 itn = sub(n.iter)
                 it = expr_text(itn)
@@ -1948,8 +1995,31 @@ class _TplRun:
                             self.chain.pop()
                             self._ostack.pop()
                         break
-            elif isinstance(n, (nodes.With, nodes.Scope, nodes.CallBlock, nodes.FilterBlock, nodes.AssignBlock)):
+            elif isinstance(n, nodes.CallBlock):
+                call = sub(n.call)
+                hit = self.macro_of(call, ti) if isinstance(call, nodes.Call) else None
+                if hit is not None and depth < 4:
+                    # `{% call(x) m(args) %}body{% endcall %}` writes what m(args) writes, the body wherever m writes caller(...)
+                    yield from self._expand(hit, call, (n, ti, dict(binds), list(self._ostack)), guards, gnodes, loops, depth, targets)
+                else:
+                    yield from self.frags(n.body, ti, binds, guards, gnodes, loops, depth, targets)
+            elif isinstance(n, (nodes.With, nodes.Scope, nodes.FilterBlock, nodes.AssignBlock)):
                 yield from self.frags(getattr(n, "body", []), ti, binds, guards, gnodes, loops, depth, targets)
+
+    def _expand(self, hit: Any, call: nodes.Call, block: Any, guards: tuple, gnodes: tuple, loops: tuple, depth: int, targets: tuple) -> Any:
+        """the fragments of a macro's body with its parameters bound to the arguments of the call"""
+        t2, m = hit
+        params = [a.name for a in m.args]
+        b2: dict[str, nodes.Node] = dict(zip(params[len(params) - len(m.defaults):], m.defaults))
+        b2.update(zip(params, call.args))
+        b2.update({k.key: k.value for k in call.kwargs})
+        self._ostack.append((t2.name, m.name))
+        self._cstack.append(block)
+        try:
+            yield from self.frags(m.body, t2, b2, guards, gnodes, loops, depth + 1, targets)
+        finally:
+            self._ostack.pop()
+            self._cstack.pop()
 
     # -- conditions --------------------------------------------------------------------------------------------------------------------
     def stable(self, n: nodes.Node) -> bool:
@@ -2307,17 +2377,39 @@ def _renames_rechecked(rep: Report, ctx: Any) -> None:
                 return lp
         return None
 
+    def call_sites(h: Any) -> list[tuple[Any, ast.stmt]]:
+        """(caller, statement) of every call of region helper h from another function of the region"""
+        out = []
+        for k in reg:
+            if k is h:
+                continue
+            for st in cfg_of(k, cfgs).stmts():
+                if any(isinstance(c_, ast.Call) and h in _callees(ix, k, c_) for c_ in walk_own(st)):
+                    out.append((k, st))
+        return out
+
+    def recorded_after(g: Any, st: ast.stmt, depth: int = 0) -> bool:
+        """every path from st to the next parameter passes an addition to a modification set.  The pass over the parameters may be a
+        loop of g itself or of a caller: where g has no loop around st, a path that leaves g unrecorded continues behind each call of
+        g in the region (a helper that only renames leaves the bookkeeping to its caller)."""
+        cg, lp = cfg_of(g, cfgs), pass_loop(g, st)
+        if lp is not None:
+            return cg.every_path_passes(st, lp, records(g))
+        if cg.every_path_passes(st, EXIT, records(g)):
+            return True
+        sites = call_sites(g) if g is not f and depth < 3 else []
+        return bool(sites) and all(recorded_after(k, c_, depth + 1) for k, c_ in sites)
+
     n_ren = 0
     loops: list[tuple[Any, ast.stmt]] = []
     renaming = [g for g in reg if renames_of(g)]
     for g in renaming:
-        cg = cfg_of(g, cfgs)
         for s_ in renames_of(g):
             n_ren += 1
             lp = pass_loop(g, s_)
             if lp is not None:
                 loops.append((g, lp))
-            ok = cg.every_path_passes(s_, lp if lp is not None else EXIT, records(g))
+            ok = recorded_after(g, s_)
             rep.check(ok, "R01.8", f"{short(g)}::rename->{anon(s_, local_names(g.node))[:60]}",
                       "a parameter is renamed but the change is not recorded in the set of modified parameters on every path: no re-check runs",
                       where(g, s_), lhs=norm(s_)[:80], rhs="followed by <modified set>.add on every path to the next iteration")
@@ -2373,8 +2465,11 @@ def _renames_rechecked(rep: Report, ctx: Any) -> None:
                 isinstance(x, ast.Compare) and len(x.ops) == 1 and isinstance(x.ops[0], (ast.Eq, ast.NotEq)) and
                 norm(x.left).endswith(".python_name") and norm(x.comparators[0]).endswith(".python_name") for x in walk_own(n))
 
+        # the way out when the names are still equal: an error value is returned, or the function is left by an exception (which
+        # of the two is the caller's protocol, not a fact about the re-check) - in either case decided by the comparison
+        gives_up = [r for r in cg.stmts() if (isinstance(r, ast.Return) and constructs_error(r.value)) or isinstance(r, ast.Raise)]
         ok = all(cg.every_path_passes(s_, EXIT, compares) for s_ in renames_of(g)) and \
-            any(isinstance(r, ast.Return) and constructs_error(r.value) for r in ast.walk(g.node))
+            any(cg.is_dominated_by(r, compares) for r in gives_up)
         rep.check(ok, "R01.8", f"{short(g)}::re-check", "raw-name fallback is not followed by an equality test that returns an error",
                   where(g, g.node), lhs=[norm(s_)[:60] for s_ in renames_of(g)], rhs="then a comparison of the two python names on every path, and an error return")
     rep.floor("attribute_renames", n_attr, 1)
